@@ -440,6 +440,47 @@ func c19Disjoint(c *fw.Ctx, id string, root dst.Node, src string) {
 	}
 }
 
+// c19Sentinels re-homes every decoration list of a tree in a backing array with three spare slots
+// that hold a sentinel; the returned function reports the first slot that no longer does.
+func c19Sentinels(root dst.Node) func() string {
+	const sentinel = "\x00sentinel"
+	type rec struct {
+		full  []string
+		n     int
+		where string
+	}
+	var recs []rec
+	dst.Inspect(root, func(n dst.Node) bool {
+		if n == nil {
+			return false
+		}
+		v := reflect.ValueOf(n).Elem().FieldByName("Decs")
+		if !v.IsValid() {
+			return true
+		}
+		forEachDecs(v, func(name string, d *dst.Decorations) {
+			ln := len(*d)
+			buf := make([]string, ln, ln+3)
+			copy(buf, *d)
+			full := buf[:ln+3]
+			full[ln], full[ln+1], full[ln+2] = sentinel, sentinel, sentinel
+			*d = buf
+			recs = append(recs, rec{full, ln, refl.TypeName(n) + "." + name})
+		})
+		return true
+	})
+	return func() string {
+		for _, r := range recs {
+			for k := r.n; k < len(r.full); k++ {
+				if r.full[k] != sentinel {
+					return fmt.Sprintf("the spare capacity of the list at %s was overwritten with %q while the tree was rendered", r.where, r.full[k])
+				}
+			}
+		}
+		return ""
+	}
+}
+
 func sameList(a, b []string) bool {
 	if len(a) != len(b) {
 		return false
@@ -574,8 +615,15 @@ func c19Render(c *fw.Ctx, id string, where int, reused bool, d dst.Decorations, 
 		}
 		point += " [file restorer used before]"
 	}
+	// every list of the tree gets spare capacity filled with sentinels: rendering reads the lists,
+	// it never writes into their storage
+	verifySentinels := c19Sentinels(target)
 	if err := fr.Fprint(&buf, target); err != nil {
 		fail("render-error", point+": "+err.Error())
+		return
+	}
+	if bad := verifySentinels(); bad != "" {
+		fail("storage-written-by-render", point+": "+bad)
 		return
 	}
 	toks, _ := obs.Scan(buf.Bytes())
